@@ -30,6 +30,7 @@ def run(ctx):
     D.rule_buffer_growth(res, "C17-R2", m)
     D.rule_table_only_state(res, "C17-R3", m)
     D.rule_keyed_access(res, "C17-R3", m)
+    D.rule_key_equality(res, "C17-R3", m)  # erase(key) releases the entry only if the container's key relation finds it again
     res.floor("C17-R1", 6, n)
     res.floor("C17-R1L", 3)
     res.floor("C17-R2", 2)
